@@ -120,6 +120,27 @@ class LineMachine:
             return r.v
         raise AnalysisError("Parser.parse_data: no return after the line loop")
 
+    def form_lines(self, script):
+        """the list of lines parse_data forms from a script (lock-step exemplar texts): everything parse_data does before the
+        line loop - unicode_escape encoding as in __init__, pre_process_data, tab removal, the split at line ends - evaluated
+        abstractly.  Returns (lines, registers before the first line)."""
+        pd = self.model.parser_method("parse_data")
+        loop = [i for i, st in enumerate(pd.node.body) if isinstance(st, ast.For) and any(
+            isinstance(n, ast.Call) and isinstance(n.func, ast.Attribute) and n.func.attr == "process_line" for n in ast.walk(st))]
+        if len(loop) != 1:
+            raise AnalysisError("Parser.parse_data: the loop calling self.process_line for every line is not found")
+        attrs = dict(self.consts)
+        enc = lambda t: t.encode("unicode_escape")
+        attrs["data"] = W([enc(x) for x in script.ex]) if isinstance(script, W) else enc(script)
+        it = _LineInterp(self.model, self.ctx.grammar.tokens_ns, attrs)
+        it.cur_func = pd
+        env = {"__module__": pd.module}
+        it.block(pd.node.body[:loop[0]], env)
+        seq = it.ev(pd.node.body[loop[0]].iter, env)
+        # `for num, self.line in enumerate(lines)`
+        lines = [x[1] if isinstance(x, tuple) else x for x in it.iterate(seq)]
+        return lines, {r: it.self_attrs.get(r) for r in REGISTERS}
+
     def step_each(self, state, line, more_lines=True):
         """one (statements, new state) per exemplar - for line classes the machine does not treat uniformly"""
         from .deriv import _leaves, _project
